@@ -399,6 +399,14 @@ fn run_with_oracles<S: MdkStorageProvider>(s: &S, m: &Maps, backend: &str, line:
                 if k.starts_with(&vp) || k.starts_with(&sp) || k.starts_with("N:") { continue; }
                 if after.get(k) != Some(v) { fails.push(("C09", format!("[{backend}] rollback of group {g} changed {k}: {v} -> {}", after[k]))); break; }
             }
+            // the nostr-id index agrees with the group records after the rollback: each id leads to the group that carries it
+            // now (the restored record of g included), and an id no group carries any more leads nowhere
+            for n in 0..17u64 {
+                let holder = (0..5u64).map(|h| after[&format!("V{h}:group")].clone()).find(|rec| rec.strip_prefix("group:g(").and_then(|x| x.split(',').nth(1)).and_then(|x| x.parse::<u64>().ok()) == Some(n));
+                let want = holder.unwrap_or("group:-".into());
+                let got = &after[&format!("N:nostr{n}")];
+                if *got != want { fails.push(("C09", format!("[{backend}] after the rollback of group {g} the lookup by nostr id {n} gives {got}, the group records say {want}"))); break; }
+            }
         } else {
             // taking, releasing, listing or pruning snapshots changes no live state (and a failed rollback nothing)
             for (k, v) in &before {
@@ -437,7 +445,13 @@ fn main() {
             v.push(("ST RESET".to_string(), "RESET"));
             let mut g = Gen { r: r.fork(), nostr: BTreeMap::new(), groups: BTreeSet::new(), msg_ids: BTreeMap::new(), snaps: BTreeSet::new(), leafs: BTreeMap::new(), max_msgs: 12 };
             let n = len / 2 + g.r.below(len);
-            for _ in 0..n { v.push(g.next()); }
+            for _ in 0..n {
+                let (l, c) = g.next();
+                // after a rollback, look the group up under both nostr ids of its pool (the restored one and the abandoned one)
+                let follow: Vec<String> = if c == "Rollback" { let gi: u64 = l.split(' ').nth(2).unwrap().parse().unwrap(); vec![format!("ST FindByNostr {}", gi * 4), format!("ST FindByNostr {}", gi * 4 + 1)] } else { vec![] };
+                v.push((l, c));
+                for f in follow { v.push((f, "FindByNostr")); }
+            }
         }
         v
     };
